@@ -8,7 +8,7 @@ from . import common as C
 
 
 def run_jobs(jobs: list, *, n_devices: int = 1, nproc: int | None = None, timeout: int = 3000,
-             late_x64: bool = False):
+             late_x64: bool = False, extra_env: dict | None = None):
     """Execute jobs with harness.workers.solver_worker.
 
     Returns (jobs2, traces): one entry per produced trace (a job with several injected vectors
@@ -25,7 +25,7 @@ def run_jobs(jobs: list, *, n_devices: int = 1, nproc: int | None = None, timeou
         def work(ci):
             f = d / f"tr{ci}.json"
             p = C.run_python(["-m", "harness.workers.solver_worker"], n_devices=n_devices,
-                             extra_env={"VERIF_WORKER_NO_X64": "1"} if late_x64 else None,
+                             extra_env=dict(extra_env or {}, **({"VERIF_WORKER_NO_X64": "1"} if late_x64 else {})) or None,
                              input_json={"jobs": [jobs[j] for j in chunks[ci]], "out": str(f)},
                              cwd=str(C.VERIF), timeout=timeout)
             if p.returncode != 0 or not f.exists():
